@@ -477,19 +477,21 @@ pub fn ref_lookup_index(positions: &[(u32, u32)], q: (u32, u32)) -> Option<usize
 // iterator protocol: however an iterator is driven, it yields the same sequence
 // ---------------------------------------------------------------------------------------
 
-/// `expected` is what `make().collect()` must give. Every other way of driving the iterator
-/// (`nth`, `skip`, `step_by`, `count`, `last`, mixed `next`/`nth` walks) and `size_hint` must be
-/// consistent with that sequence — `Iterator`'s provided methods guarantee it unless an
-/// override disagrees with `next`. Bounded: at most `expected.len() + 2` items are ever pulled.
-pub fn iter_conformance<T, I>(what: &str, make: impl Fn() -> I, expected: &[T]) -> Result<(), String>
+/// `expected` is what `make().map(proj).collect()` must give. Every other way of driving the
+/// iterator (`nth`, `skip`, `step_by`, `count`, `last`, mixed `next`/`nth` walks) and `size_hint`
+/// must be consistent with that sequence — `Iterator`'s provided methods guarantee it unless an
+/// override disagrees with `next`. The adaptors are applied to the crate's iterator itself (`proj`
+/// only renders the items afterwards), so that its own overrides are the ones exercised.
+/// Bounded: at most `expected.len() + 2` items are ever pulled.
+pub fn iter_conformance<T, I>(what: &str, make: impl Fn() -> I, proj: impl Fn(I::Item) -> T, expected: &[T]) -> Result<(), String>
 where
     T: PartialEq + std::fmt::Debug + Clone,
-    I: Iterator<Item = T>,
+    I: Iterator,
 {
     let n = expected.len();
     let bound = n + 2;
     let r = guard(|| -> Result<(), String> {
-        let all: Vec<T> = make().take(bound).collect();
+        let all: Vec<T> = make().take(bound).map(&proj).collect();
         if all != expected {
             return Err(format!("{what}: yields {all:?}, expected {expected:?}"));
         }
@@ -500,47 +502,40 @@ where
         let ks: Vec<usize> = if n <= 40 { (0..=n + 1).collect() } else { vec![0, 1, 2, 3, 15, 16, 17, 31, 32, 33, n / 2, n - 2, n - 1, n, n + 1] };
         for &k in &ks {
             let mut it = make();
-            let got = it.nth(k);
+            let got = it.nth(k).map(&proj);
             if got.as_ref() != expected.get(k) {
                 return Err(format!("{what}: nth({k}) = {got:?}, the {k}-th item of the sequence is {:?}", expected.get(k)));
             }
             if k < n {
-                let rest: Vec<T> = it.take(bound).collect();
-                if rest != expected[k + 1..] {
-                    return Err(format!("{what}: after nth({k}) the iterator continues with {rest:?}, expected {:?}", &expected[k + 1..]));
-                }
-                let (lo, hi) = {
-                    let mut it = make();
-                    it.nth(k);
-                    it.size_hint()
-                };
+                let (lo, hi) = it.size_hint();
                 let left = n - k - 1;
                 if lo > left || hi.map(|h| h < left).unwrap_or(false) {
                     return Err(format!("{what}: size_hint() after nth({k}) = ({lo}, {hi:?}) with {left} item(s) left"));
                 }
+                let rest: Vec<T> = it.take(bound).map(&proj).collect();
+                if rest != expected[k + 1..] {
+                    return Err(format!("{what}: after nth({k}) the iterator continues with {rest:?}, expected {:?}", &expected[k + 1..]));
+                }
             }
-            let skipped: Vec<T> = make().skip(k).take(bound).collect();
+            let skipped: Vec<T> = make().skip(k).take(bound).map(&proj).collect();
             if skipped != expected[k.min(n)..] {
                 return Err(format!("{what}: skip({k}) yields {skipped:?}, expected {:?}", &expected[k.min(n)..]));
             }
         }
         for step in [2usize, 3] {
-            let got: Vec<T> = make().step_by(step).take(bound).collect();
+            let got: Vec<T> = make().step_by(step).take(bound).map(&proj).collect();
             let want: Vec<T> = expected.iter().step_by(step).cloned().collect();
             if got != want {
                 return Err(format!("{what}: step_by({step}) yields {got:?}, expected {want:?}"));
             }
         }
-        let c = make().take(bound).count();
-        if c != n {
-            return Err(format!("{what}: count() = {c}, the sequence has {n} item(s)"));
-        }
         if n <= 4096 {
+            // (an iterator that does not end would have been caught by the bounded collect above)
             let c = make().count();
             if c != n {
                 return Err(format!("{what}: count() = {c}, the sequence has {n} item(s)"));
             }
-            let l = make().last();
+            let l = make().last().map(&proj);
             if l.as_ref() != expected.last() {
                 return Err(format!("{what}: last() = {l:?}, expected {:?}", expected.last()));
             }
@@ -553,9 +548,9 @@ where
                 break;
             }
             let (got, want) = match skip {
-                None => (it.next(), expected.get(cur)),
+                None => (it.next().map(&proj), expected.get(cur)),
                 Some(k) => {
-                    let g = it.nth(k);
+                    let g = it.nth(k).map(&proj);
                     cur += k;
                     (g, expected.get(cur))
                 }
